@@ -434,6 +434,13 @@ class BoxOracle(object):
             self.nonidem_seen = True
         if op['op'] == 'set' and op['what'] == 'bounds':
             a = op.get('arg')
+            if a and a.get('invalid'):
+                h.run.probe('c02.rejected_reconfiguration')
+                if res.get('exc') != 'ValueError':
+                    h.violate(self.P, 'illegal_mode_accepted', detail='SetStrictRanges with min > max (%r) did not raise ValueError (%r)'
+                              % (a, res), **self.tags(h))
+                # (rejected: the box that was in force stays in force -- Epochs.note ignores a call that raised)
+                return
             if a and a.get('tight') is False and a.get('clip') is not None:
                 if res.get('exc') != 'ValueError':
                     h.violate(self.P, 'illegal_mode_accepted', detail='SetStrictRanges(tight=False, clip=%r) did not '
@@ -691,6 +698,12 @@ class LimitModel(object):
             pass
         if op['op'] in ('step', 'solve') and h.started and 'exc' not in res:
             self.check_final(h, op, res)
+    def before_op(self, h, op):
+        # Solve() starts by withdrawing a previous exit request (it re-arms the handler): a new Solve is a new run
+        if op['op'] == 'solve':
+            self.note_exit(h)
+            self.exit_answered = False
+
     def note_exit(self, h):
         a = h.run.signal.answers
         for x in a[self.answers_seen:]:
@@ -710,7 +723,7 @@ class LimitModel(object):
         why = None
         if isinstance(mi, (int, float)) and it >= mi: why = 'iterations %d >= generation limit %r' % (it, mi)
         elif isinstance(mf, (int, float)) and ca >= mf: why = 'real cost calls %d >= evaluation limit %r' % (ca, mf)
-        elif self.exit_answered and s['earlyexit']: why = 'an exit request was answered'
+        elif self.exit_answered: why = 'an exit request was answered (%r)' % (h.run.signal.answers,)
         elif h.term_node is not None:
             sat, docs = termref.evaluate(h.term_node, s)
             if sat is True: why = 'termination %s holds (%s)' % (h.term_spec, sorted(docs or []))
